@@ -231,8 +231,7 @@ def r3(ctx: Ctx) -> None:
                 good = (isinstance(last, ast.Return) and isinstance(last.value, ast.Constant) and last.value.value is False) or \
                        (isinstance(last, ast.Assign) and isinstance(last.value, ast.Constant) and last.value.value is None) or isinstance(last, (ast.Pass, ast.Continue))
                 ctx.check(good, 'C10.R3', f, f'outcome:{src(call.func)}', 'failure -> not a member / variable None', f'handler ends in {src(last)[:40]!r}', last)
-    if n < 3:
-        raise AnalysisError(f'C10.R3: {n} view evaluation sites found (3 confirmed)')
+    ctx.need(not (n < 3), f'C10.R3: {n} view evaluation sites found (3 confirmed)')
 
 
 def r4(ctx: Ctx) -> None:
